@@ -152,23 +152,6 @@ def run(fx, tier):
         ok = len(calls) == 1 and [core(a).get('n') for a in calls[0]['args']] == ['code', 'packet_id']
         v.check(ok, 'R-DOM', 'replies::dispatch [%s]' % f.tu, 'looks the waiter up with its own (code, packet_id)',
                 key='C01:R-DOM:replies::dispatch', where=f.file)
-    for f in fx.functions(cls='assemble_op', name='dispatch'):
-        v.saw(f)
-        ok = False
-        for b, i, l, c in f.calls():
-            if callee_name(c) == 'dispatch' and callee_cls(c) == 'replies':
-                a = [origin(f, x) for x in c['args']]
-                code = core(a[1])
-                pid = core(a[2])
-                code_ok = contains(code, lambda n: n.get('k') == 'bin' and n.get('op') == '&' and contains(n, lambda m: m.get('c') == 240)
-                                   and contains(n, lambda m: m.get('k') == 'ref' and m.get('n') == f.params[0]['n']))
-                pid_ok = contains(pid, lambda n: is_call(n, 'decode_packet_id')
-                                  and contains(n.get('args', []), lambda m: m.get('k') == 'ref' and m.get('n') == f.params[1]['n']))
-                span_ok = [core(x).get('n') for x in c['args'][3:5]] == [f.params[1]['n'], f.params[2]['n']]
-                ok = code_ok and pid_ok and span_ok
-        v.check(ok, 'R-DOM', 'assemble_op::dispatch%s [%s]' % (f.inst(), f.tu),
-                'replies are routed with (control byte & 0xF0, id decoded from this packet, this packet\'s span)',
-                key='C01:R-DOM:assemble_op::dispatch', where=f.file)
     # the packet that carries the request is the one MQTT 5 defines for these arguments (shared with C17)
     from c17 import encoder_schema_rules
     v.rule('R-SCHEMA', 'wire schema of encode_publish vs the MQTT 5 packet table (field order, kinds, sources, flag bits, Remaining Length)')
@@ -362,3 +345,74 @@ def reply_matching_rule(fx, v, prop='C01'):
                 why = 'predicate is the conjunction of equalities on %s (found %s, %d conjuncts)' % (fields, sorted(got), len(conj))
             v.check(ok, 'R-DOM', 'replies::%s [%s]' % (finder, f.tu), why,
                     key='%s:R-DOM:replies::%s' % (prop, finder), where=f.file)
+    reply_routing_rule(fx, v, prop)
+
+
+def _hand_decoded_pid(f, pid, first_name):
+    """a packet identifier read by hand from the first two bytes of the span: folded on boundary byte pairs against
+    big-endian (b0 << 8 | b1); the span holds (signed) char"""
+    from arith import ieval, Overflow
+
+    def byte_at(x):
+        x = core(x)
+        if isinstance(x, dict) and x.get('k') == 'ref' and x.get('n') == first_name:
+            return 0
+        if isinstance(x, dict) and x.get('k') == 'call' and callee_name(x) == 'operator+' and len(x.get('args', [])) == 2:
+            a0, a1 = core(x['args'][0]), core(x['args'][1])
+            if isinstance(a0, dict) and a0.get('k') == 'ref' and a0.get('n') == first_name and isinstance(a1, dict) and 'c' in a1:
+                return a1['c']
+        if isinstance(x, dict) and x.get('k') == 'bin' and x.get('op') == '+':
+            a0, a1 = core(x['l']), core(x['r'])
+            if isinstance(a0, dict) and a0.get('k') == 'ref' and a0.get('n') == first_name and isinstance(a1, dict) and 'c' in a1:
+                return a1['c']
+        return None
+    worst = None
+    for b0 in (0x00, 0x01, 0x7F, 0x80, 0xFF):
+        for b1 in (0x00, 0x01, 0x7F, 0x80, 0xFF):
+            bytes_ = (b0, b1)
+
+            def hook(x, env, bytes_=bytes_):
+                if callee_name(x) == 'operator*' and x.get('args'):
+                    k = byte_at(x['args'][0])
+                    if k in (0, 1):
+                        return bytes_[k] if bytes_[k] < 128 else bytes_[k] - 256
+                if callee_name(x) == 'operator[]' and len(x.get('args', [])) == 2:
+                    k = core(x['args'][1]).get('c') if isinstance(core(x['args'][1]), dict) else None
+                    if byte_at(x['args'][0]) == 0 and k in (0, 1):
+                        return bytes_[k] if bytes_[k] < 128 else bytes_[k] - 256
+                raise ValueError('call')
+            try:
+                val = ieval(pid, {'__call__': hook})
+            except (ValueError, Overflow, KeyError, TypeError):
+                return None
+            if (val & 0xFFFF) != ((b0 << 8) | b1) or val != (val & 0xFFFF):
+                worst = 'bytes %02x %02x are read as 0x%04x' % (b0, b1, val & 0xFFFFFFFF)
+    return worst or True
+
+
+def reply_routing_rule(fx, v, prop='C01'):
+    """the framer hands an acknowledgement to the registry under (control byte & 0xF0, the identifier in the first two bytes of
+    THIS packet - decode_packet_id or an equivalent big-endian read, folded on boundary bytes -, this packet's span)"""
+    for f in fx.functions(cls='assemble_op', name='dispatch'):
+        v.saw(f)
+        ok = False
+        why = ''
+        for b, i, l, c in f.calls():
+            if callee_name(c) == 'dispatch' and callee_cls(c) == 'replies':
+                a = [origin(f, x) for x in c['args']]
+                code = core(a[1])
+                pid = core(a[2])
+                code_ok = contains(code, lambda n: n.get('k') == 'bin' and n.get('op') == '&' and contains(n, lambda m: m.get('c') == 240)
+                                   and contains(n, lambda m: m.get('k') == 'ref' and m.get('n') == f.params[0]['n']))
+                pid_ok = contains(pid, lambda n: is_call(n, 'decode_packet_id')
+                                  and contains(n.get('args', []), lambda m: m.get('k') == 'ref' and m.get('n') == f.params[1]['n']))
+                if not pid_ok:
+                    r = _hand_decoded_pid(f, a[2], f.params[1]['n'])
+                    pid_ok = r is True
+                    if isinstance(r, str):
+                        why = ' — NOT: ' + r
+                span_ok = [core(x).get('n') for x in c['args'][3:5]] == [f.params[1]['n'], f.params[2]['n']]
+                ok = code_ok and pid_ok and span_ok
+        v.check(ok, 'R-DOM', 'assemble_op::dispatch%s [%s]' % (f.inst(), f.tu),
+                'replies are routed with (control byte & 0xF0, id decoded from this packet, this packet\'s span)' + why,
+                key=prop + ':R-DOM:assemble_op::dispatch', where=f.file)
